@@ -150,7 +150,7 @@ def unpadAes (p : Bytes) : Bytes :=
   | none => p
   | some b =>
     let n := b.toNat
-    if 1 ≤ n ∧ n ≤ 16 ∧ n ≤ p.length ∧ p.drop (p.length - n) = List.replicate n b then
+    if UNPAD_MIN ≤ n ∧ n ≤ UNPAD_MAX ∧ n ≤ p.length ∧ p.drop (p.length - n) = List.replicate n b then
       p.take (p.length - n)
     else p
 
@@ -341,12 +341,18 @@ def nameAESV2 : Bytes := [65, 69, 83, 86, 50]        -- "AESV2"
 def nameAESV3 : Bytes := [65, 69, 83, 86, 51]        -- "AESV3"
 def nameIdentity : Bytes := [73, 100, 101, 110, 116, 105, 116, 121]
 
-/-- `get_cfm` of the V4 (cls 4) and V5 (cls 5) handlers. -/
+/-- the bound methods `get_cfm` / `init_params` can put into `self.cfm` -/
+def methodOfPy (s : String) : Option Method :=
+  if s = "decrypt_rc4" then some .rc4
+  else if s = "decrypt_aes128" then some .aes128
+  else if s = "decrypt_aes256" then some .aes256
+  else if s = "decrypt_identity" then some .identity
+  else none
+
+/-- `get_cfm` of the V4 (cls 4) and V5 (cls 5) handlers: the if/elif chains regenerated from
+    pdfdocument.py (`GET_CFM_V4`, `GET_CFM_V5`). -/
 def getCfm (cls : Nat) (name : Bytes) : Option Method :=
-  if cls = 4 then
-    if name = nameV2 then some .rc4 else if name = nameAESV2 then some .aes128 else none
-  else
-    if name = nameAESV3 then some .aes256 else none
+  (lookup name (if cls = 4 then GET_CFM_V4 else GET_CFM_V5)).bind methodOfPy
 
 /-- the loop over `self.cf.items()` (later entries overwrite earlier ones; `Identity` last). -/
 def buildCfm (cls : Nat) : List (Bytes × Bytes) → Except Err (List (Bytes × Method))
@@ -381,15 +387,15 @@ def openHandler (P : Prims) (prm : Params) (pw : List Nat) : Except Err Handler 
         if (lookup prm.strf cfm).isNone then .error .encryption else
         if cls = 4 then
           if prm.r ∉ SUPPORTED_REVISIONS_V4 then .error .encryption else
-          match authenticate234 P prm 128 p pw with
+          match authenticate234 P prm FORCED_LENGTH_V4 p pw with
           | .error e => .error e
-          | .ok key => .ok { cls := 4, r := prm.r, p := p, length := 128, key := key, cfm := cfm,
+          | .ok key => .ok { cls := 4, r := prm.r, p := p, length := FORCED_LENGTH_V4, key := key, cfm := cfm,
                              strf := prm.strf, encryptMetadata := prm.encryptMetadata }
         else
           if prm.r ∉ SUPPORTED_REVISIONS_V5 then .error .encryption else
           match authenticate56 P prm pw with
           | .error e => .error e
-          | .ok key => .ok { cls := 5, r := prm.r, p := p, length := 256, key := key, cfm := cfm,
+          | .ok key => .ok { cls := 5, r := prm.r, p := p, length := FORCED_LENGTH_V5, key := key, cfm := cfm,
                              strf := prm.strf, encryptMetadata := prm.encryptMetadata }
 where
   lookup' (v : Int) : List (Int × Nat) → Option Nat
@@ -432,6 +438,23 @@ def decrypt (P : Prims) (h : Handler) (objid genno : Nat) (isMetadata : Bool) (d
   else match lookup h.strf h.cfm with
     | some m => applyMethod P h m objid genno data
     | none => data            -- unreachable: `openHandler` checked `strf ∈ cfm`
+
+/-- The decision `decrypt` takes, as a table over (handler class, EncryptMetadata, "attrs is given
+    and its Type is /Metadata", crypt filter named by StrF): which cipher handles this piece of data.
+    pdfminer has no per-stream override (`name` is never passed; a `/Crypt` entry in a stream's
+    `Filter` array raises PDFNotImplementedError later, in `PDFStream.decode`), and StmF = StrF is
+    enforced by `init_params`, so strings and streams use the same filter.
+    `none` = StrF names no entry of `cfm` (excluded by `init_params`, see `openHandler_method`). -/
+def selectMethod (h : Handler) (isMetadata : Bool) : Option Method :=
+  if h.cls = 1 then some .rc4
+  else if ¬ h.encryptMetadata ∧ isMetadata then some .identity
+  else lookup h.strf h.cfm
+
+def Method.name : Method → String
+  | .rc4 => "rc4"
+  | .aes128 => "aes128"
+  | .aes256 => "aes256"
+  | .identity => "identity"
 
 /-! ## where decryption is applied -/
 
